@@ -9,3 +9,9 @@ import ChibiVerif.Props.C14
 import ChibiVerif.Findings.C14
 import ChibiVerif.Props.C10
 import ChibiVerif.Findings.C10
+import ChibiVerif.Props.C19
+import ChibiVerif.Findings.C19
+import ChibiVerif.Props.C08
+import ChibiVerif.Findings.C08
+import ChibiVerif.Props.C18
+import ChibiVerif.Findings.C18
